@@ -36,6 +36,9 @@ pub fn exec_error_kind(e: &ExecError) -> &'static str {
         ExecError::IndexOutOfBounds => "IndexOutOfBounds",
         ExecError::NegativeLength => "NegativeLength",
         ExecError::NegativeExponent => "NegativeExponent",
+        // (a variant this harness does not know: still a documented-error outcome, named as such)
+        #[allow(unreachable_patterns)]
+        _ => "OtherExecError",
     }
 }
 
@@ -698,8 +701,14 @@ pub fn det(args: &[String]) -> Value {
     let tag = args.get(2).cloned().unwrap_or_else(|| "p".into());
     // the order in which this process meets the programs ("after unrelated work"): fwd, rev or shuffled
     let order = args.get(3).map(|s| s.as_str()).unwrap_or("fwd");
+    if order.ends_with("+fromstr") {
+        // an embedding host that also uses the type parser: nothing it does may change what programs mean afterwards
+        use std::str::FromStr;
+        let _ = simplesl::variable::Type::from_str("[int|float]");
+        let _ = simplesl::variable::Variable::from_str("[1, 2.5]");
+    }
     let mut idx: Vec<usize> = (0..cases.len()).collect();
-    match order {
+    match order.trim_end_matches("+fromstr") {
         "rev" => idx.reverse(),
         "shuf" => {
             let mut rng = crate::util::Rng::from_env(77);
